@@ -182,7 +182,7 @@ def run_one(d):
     try:
         sh('rsync -a --exclude .git /repo/ %s/' % tree)
         shutil.copy(os.path.join(d, meta['file']), os.path.join(tree, 'src', 'ssh_audit', meta['file']))
-        rc, out = sh('/venv/bin/python -m pytest -q -p no:cacheprovider -x', cwd=tree, timeout=600)
+        rc, out = sh('/venv/bin/python -m pytest -q -p no:cacheprovider -x', cwd=tree, timeout=600, env=dict(os.environ, PYTHONPATH=os.path.join(tree, 'src')))
         if rc != 0:
             res = {'killed_by': 'tests'}
         else:
